@@ -29,6 +29,13 @@ Oracles (written from the property statement, no code shared with the implementa
            whole sample; (metamorphic) the peak set equals the one for the contiguous copy and the
            refined coordinates agree for non-negative patches.  A bucket that fails only with the
            non-contiguous tensor carries the suffix ``:only-with-noncontiguous-layout``.
+  dtypes   (part ``dtypes``) the maps as float32 | float64 | float16 | bfloat16 tensors, (dtype, value
+           model) drawn as ONE pair; models incl. ``neartie`` (candidate maxima - adjacent or apart - that
+           differ by 1e-9..1e-13 relative for float64, by 1-4 spacings of the dtype otherwise), ``nearthr``
+           (maximum just above / just below / equal to the threshold) and ``tiny`` (float64: magnitudes
+           1e-45..1e-60).  rough / indep / refine oracles as above, "strictly greater" and "exceeds the
+           threshold" decided on the case's exact doubles (= the map's own arithmetic); cells exact, a
+           float64 value may come back rounded to the documented float32.  Buckets end in ``:dtype=<dtype>``.
 """
 
 import numpy as np
@@ -47,7 +54,11 @@ RULE = (
     "the top values (a cell above threshold that is >= all neighbours and == one of them, or a map "
     "maximum attained twice) AND B*C > 1; the values are handed over in a drawn memory layout (contiguous / "
     "channels_last / permuted view / slice of a larger tensor / strided / expanded; value model and layout "
-    "drawn as one pair); distinct by hash of the serialised case"
+    "drawn as one pair); part dtypes: (map dtype in {float32,float64,float16,bfloat16}, value model) drawn as "
+    "one pair, models incl. near-tied (adjacent) candidate maxima, maximum just above/below/at the threshold and "
+    "tiny magnitudes at the resolution of the dtype; non-trivial there = some cell above threshold beats or ties "
+    "its largest neighbour by < 1e-2 relative, or map maximum and threshold within 1e-2 relative, or magnitude "
+    "< 1e-15; distinct by hash of the serialised case"
 )
 ASSUMPTIONS = [
     "maps are finite float32 tensors with |v| <= 2 (kornia's dilation encodes 'excluded' as -1e4, so "
@@ -75,6 +86,13 @@ ASSUMPTIONS = [
     "never NaN/inf; an 'expanded' (stride 0) view is only built when all samples (or all channels) hold "
     "identical maps - the generator copies slot 0 over the others; every call of the code under test gets "
     "a freshly built tensor, the numpy reference is never shared with it",
+    "part dtypes: case values are doubles exactly representable in the map's dtype (checked) and the oracle "
+    "compares them in float64; the threshold is representable in the map's dtype (torch compares the map with "
+    "the Python scalar in the map's dtype), any double for float64 maps; outputs may have the documented float32 "
+    "type or the map's dtype; a float64 value may be reported rounded to float32 (one float32 spacing) - the set "
+    "of cells is exact; float16 maps are at least 2x2 (kornia's homography normalisation is singular in half "
+    "precision for one-cell-wide maps: find_local_peaks(float16 Nx1, 'integral') raises LinAlgError - not judged); "
+    "contiguous tensors, one single-map probe per case, refined single-map independence not compared; |v| <= 8",
 ]
 
 TOL_INDEP = 1e-4  # refined coordinates of one map, alone vs inside a batch: same arithmetic up to
@@ -318,19 +336,22 @@ def _as_tuples(pts, vals, si, ci):
     return pts, vals, si, ci
 
 
-def _check_struct(res, where, out, torch):
-    """Documented shapes / dtypes of the 4-tuple.  Returns numpy views or None."""
+def _check_struct(res, where, out, torch, dtypes=None):
+    """Documented shapes / dtypes of the 4-tuple.  Returns numpy views or None.
+    `dtypes` (part dtypes): the floating types accepted for points and values - the documented float32
+    or the dtype of the maps; the arrays then come back as float64 / int64."""
     if not (isinstance(out, tuple) and len(out) == 4):
         res.fail(f"{where}:shape-dtype", f"expected a 4-tuple, got {type(out)}")
         return None
     pts, vals, si, ci = out
     n = pts.shape[0] if pts.dim() >= 1 else -1
+    ok_dt = (torch.float32,) if dtypes is None else dtypes
     ok = (
         pts.dim() == 2
         and pts.shape[1] == 2
-        and pts.dtype == torch.float32
+        and pts.dtype in ok_dt
         and tuple(vals.shape) == (n,)
-        and vals.dtype == torch.float32
+        and vals.dtype in ok_dt
         and tuple(si.shape) == (n,)
         and si.dtype == torch.int32
         and tuple(ci.shape) == (n,)
@@ -343,6 +364,8 @@ def _check_struct(res, where, out, torch):
             f"sample {tuple(si.shape)} {si.dtype}, channel {tuple(ci.shape)} {ci.dtype}",
         )
         return None
+    if dtypes is not None:
+        return tuple(pm.out_to_numpy(t, torch) for t in (pts, vals, si, ci))
     return _as_tuples(pts, vals, si, ci)
 
 
@@ -608,6 +631,173 @@ def _evaluate(case, layout):
     return res
 
 
+def evaluate_dtypes(case):
+    """Part dtypes: the maps as float32 / float64 / float16 / bfloat16 tensors.  Same oracles as `evaluate`
+    (brute-force strict local maxima above the threshold, single-map re-run, refinement laws), decided on the
+    case's exact doubles, i.e. in the map's own arithmetic."""
+    import torch
+
+    from sleap_nn.inference.peak_finding import find_local_peaks, find_local_peaks_rough
+
+    res = Result()
+    dtype = case["dtype"]
+    arr = np.asarray(case["maps"], dtype=np.float64)
+    B, C, H, W = arr.shape
+    thr = float(case["thr"])
+    patch = int(case["patch"])
+    sfx = f":dtype={dtype}"
+    ok_dt = (torch.float32, getattr(torch, dtype))
+
+    def cms():
+        return pm.to_tensor(arr, dtype, torch)
+
+    expected = {}
+    sens = False
+    for b in range(B):
+        for c in range(C):
+            m = arr[b, c]
+            pk = pm.brute_local_peaks(m, thr)
+            if H * W <= 30 and pk != pm.brute_local_peaks_loop(m, thr):
+                raise runner.HarnessError("the two brute-force scans disagree")
+            expected[(b, c)] = pk
+            # cells above the threshold that beat / tie their largest neighbour by a small relative margin
+            nb = pm.neighbour_max(m)
+            with np.errstate(divide="ignore", invalid="ignore"):
+                gap = np.where((m > thr) & (m >= nb) & (m != 0) & np.isfinite(nb), (m - nb) / np.abs(m), np.inf)
+            g = float(gap.min()) if gap.size else np.inf
+            if g < 1e-2:
+                sens = True
+                res.cls(f"dtype={dtype}|cell-vs-largest-neighbour:" + ("tie" if g == 0 else ("<1e-12" if g < 1e-12 else ("<2^-23" if g < 2.0**-23 else "<1e-2"))))
+            t = pm.thr_gap_class(float(m.max()), thr)
+            if t:
+                sens = True
+                res.cls(f"dtype={dtype}|{t}")
+            if 0 < abs(float(m.max())) < 1e-15:
+                sens = True
+                res.cls(f"dtype={dtype}|magnitude" + ("<1e-44" if abs(float(m.max())) < 1e-44 else "<1e-15"))
+    n_exp = sum(len(v) for v in expected.values())
+    exp_set = {(b, c, y, x) for (b, c), v in expected.items() for (y, x) in v}
+    res.nontrivial = bool(sens)
+    res.cls(
+        f"dtype={dtype}",
+        f"dtype={dtype}|model={case['model']}",
+        f"thr={case['thr_kind']}",
+        f"patch={patch}",
+        "peaks=0" if n_exp == 0 else ("peaks=1" if n_exp == 1 else ("peaks=2-5" if n_exp <= 5 else "peaks=6+")),
+    )
+    res.n_evals = B * C
+
+    # ---------------- rough detector vs brute force (cells exact; a float64 value may come back as float32)
+    out = runner.guarded(res, "rough", find_local_peaks_rough, cms(), thr)
+    if out is runner.FAILED:
+        return res
+    rough = _check_struct(res, "rough", out, torch, ok_dt)
+    if rough is None:
+        return res
+    pts, vals, si, ci = rough
+    got = []
+    bad_range = False
+    for i in range(len(vals)):
+        x, y = float(pts[i, 0]), float(pts[i, 1])
+        b, c = int(si[i]), int(ci[i])
+        if not (x == int(x) and y == int(y) and 0 <= x < W and 0 <= y < H and 0 <= b < B and 0 <= c < C):
+            res.fail("rough:out-of-range" + sfx, f"tuple {i}: sample {b} channel {c} x {x} y {y} for shape {arr.shape}")
+            bad_range = True
+            continue
+        got.append((b, c, int(y), int(x)))
+        v = float(arr[b, c, int(y), int(x)])
+        if not (abs(float(vals[i]) - v) <= pm.value_tol(dtype, v)):
+            res.fail("rough:value" + sfx, f"value {float(vals[i])!r} reported for (b={b},c={c},y={int(y)},x={int(x)}) but the map holds {v!r}")
+    if len(set(got)) != len(got):
+        res.fail("rough:duplicate" + sfx, f"{len(got) - len(set(got))} duplicated tuples")
+    got_set = set(got)
+    for b, c, y, x in sorted(exp_set - got_set):
+        res.fail(
+            f"rough:missing-peak:{pm.cell_class(arr[b, c], y, x)}" + sfx,
+            f"strict local maximum {float(arr[b, c, y, x])!r} > thr {thr!r} at (b={b},c={c},y={y},x={x}) not returned (largest neighbour "
+            f"{float(pm.neighbour_max(arr[b, c])[y, x])!r}); shape {arr.shape}",
+        )
+    for b, c, y, x in sorted(got_set - exp_set):
+        v = arr[b, c, y, x]
+        nb = pm.neighbour_max(arr[b, c])[y, x]
+        why = "not-above-threshold" if not (v > thr) else ("tie-with-neighbour" if v == nb else "smaller-than-neighbour")
+        res.fail(
+            f"rough:spurious-peak:{why}" + sfx,
+            f"(b={b},c={c},y={y},x={x}) value {float(v)!r} thr {thr!r} largest neighbour {float(nb)!r} returned but is not a strict local maximum above threshold",
+        )
+
+    # ---------------- one map alone
+    b, c = int(case["probe"][0]), int(case["probe"][1])
+    one = runner.guarded(res, "independence", find_local_peaks_rough, cms()[b : b + 1, c : c + 1], thr)
+    if one is not runner.FAILED:
+        one = _check_struct(res, "independence", one, torch, ok_dt)
+        if one is not None:
+            res.n_evals += 1
+            bp, bv = _restrict(rough, b, c)
+            a = sorted((float(p[1]), float(p[0]), float(v)) for p, v in zip(bp, bv))
+            o = sorted((float(p[1]), float(p[0]), float(v)) for p, v in zip(one[0], one[1]))
+            if a != o or (one[2] != 0).any() or (one[3] != 0).any():
+                res.fail("independence:rough" + sfx, f"peaks of map (b={b},c={c}) inside the batch {a[:6]} differ from the map alone {o[:6]}")
+
+    # ---------------- refinement
+    r0 = runner.guarded(res, "refine-none", find_local_peaks, cms(), thr, None, patch)
+    if r0 is not runner.FAILED:
+        r0 = _check_struct(res, "refine-none", r0, torch, ok_dt)
+        if r0 is not None and not all(a.shape == b_.shape and np.array_equal(a, b_) for a, b_ in zip(r0, rough)):
+            res.fail("refine:none-equals-rough" + sfx, "find_local_peaks(refinement=None) differs from find_local_peaks_rough")
+    r1 = runner.guarded(res, "refine", find_local_peaks, cms(), thr, "integral", patch)
+    if r1 is runner.FAILED or bad_range:
+        return res
+    r1 = _check_struct(res, "refine", r1, torch, ok_dt)
+    if r1 is None:
+        return res
+    rpts, rvals, rsi, rci = r1
+    if len(rvals) != len(vals):
+        res.fail("refine:count" + sfx, f"{len(vals)} rough peaks but {len(rvals)} refined peaks")
+        return res
+    if not (np.array_equal(rsi, si) and np.array_equal(rci, ci)):
+        res.fail("refine:indices" + sfx, f"sample/channel vectors changed by refinement: {si.tolist()[:8]}/{ci.tolist()[:8]} -> {rsi.tolist()[:8]}/{rci.tolist()[:8]}")
+    if not np.array_equal(rvals, vals):
+        res.fail("refine:values" + sfx, "peak values changed by refinement")
+    half = patch / 2.0
+    for i in range(len(vals)):
+        b, c, y, x = int(si[i]), int(ci[i]), int(pts[i, 1]), int(pts[i, 0])
+        pc = pm.patch_class(arr[b, c], y, x, patch)
+        d = rpts[i] - pts[i]
+        res.n_evals += 1
+        if pc == "zero-mass":
+            res.excluded += 1
+            continue
+        # patch/2 is the property's bound (see evaluate)
+        if not (np.isfinite(d).all() and (np.abs(d) <= half).all()):
+            res.fail(
+                "refine:half-patch-bound:" + ("nonneg-patch" if pc == "nonneg" else "negative-patch") + sfx,
+                f"peak (b={b},c={c},y={y},x={x}) value {float(vals[i])!r} moved by ({float(d[0]):.6g},{float(d[1]):.6g}) with patch {patch} (bound {half}); patch class {pc}",
+            )
+    return res
+
+
+def strategy_dtypes():
+    from hypothesis import strategies as st
+
+    @st.composite
+    def build(draw):
+        # map dtype and value model are ONE choice
+        dtype, model = draw(st.sampled_from(pm.DTYPE_MODEL_PAIRS))
+        B, C, H, W, arr, thr_kind, thr = pm.draw_dtype_maps(draw, st, dtype, model)
+        return {
+            "dtype": dtype,
+            "model": model,
+            "thr_kind": thr_kind,
+            "thr": thr,
+            "patch": draw(st.sampled_from([3, 5, 5, 7, 4])),
+            "probe": [draw(st.integers(0, B - 1)), draw(st.integers(0, C - 1))],
+            "maps": arr.tolist(),
+        }
+
+    return build()
+
+
 def strategy():
     from hypothesis import strategies as st
 
@@ -649,7 +839,15 @@ def parts(tier):
             budget={"quick": 1500, "thorough": 120000},
             shards={"quick": 1, "thorough": 16},
             min_nontrivial={"quick": 170, "thorough": 4000},
-        )
+        ),
+        Part(
+            name="dtypes",
+            evaluate=evaluate_dtypes,
+            strategy=strategy_dtypes,
+            budget={"quick": 380, "thorough": 40000},
+            shards={"quick": 1, "thorough": 16},
+            min_nontrivial={"quick": 80, "thorough": 1200},
+        ),
     ]
 
 
